@@ -241,8 +241,15 @@ class Ctx:
     # -- obligations ------------------------------------------------------------
     def oblige(self, kind, label, goal, meta=None, expect_sat=False):
         if goal is True:
-            self.n_trivial = getattr(self, "n_trivial", 0) + 1     # decided by evaluation, not counted
-            return None
+            self.n_trivial = getattr(self, "n_trivial", 0) + 1
+            if kind not in ("post", "frame") or "[" in label:
+                return None          # safety / call-site / per-cell conditions decided by evaluation: not counted
+            path = "".join("T" if d else "F" for d in self.decisions)
+            o = Obligation(f"{self.tag}/{kind}.{label}", kind, label, [], z3.BoolVal(True), meta, path, expect_sat)
+            o.status = "proved"
+            o.backend = "eval"
+            self.obls.append(o)
+            return o
         if isinstance(goal, bool):
             goal = z3.BoolVal(goal)
         path = "".join("T" if d else "F" for d in self.decisions)
@@ -338,6 +345,8 @@ class Engine:
 
 def discharge(o: Obligation, timeout_ms=20000):
     """Decide one obligation with z3; fall back to alternative tactics on unknown."""
+    if o.status == "proved" and o.backend == "eval":
+        return o
     t0 = time.time()
     s = z3.Solver()
     s.set("timeout", timeout_ms)
